@@ -2583,6 +2583,20 @@ Octagonal_Shape<T>::strong_closure_assign() const {
   const row_iterator m_begin = x.matrix.row_begin();
   const row_iterator m_end = x.matrix.row_end();
 
+  // If the closure is abandoned by an exception (allocation failure,
+  // timeout), the main diagonal must get back its plus infinities:
+  // the partially closed matrix still encodes the same octagon.
+  struct Diagonal_Guard {
+    OR_Matrix<N>& m;
+    explicit Diagonal_Guard(OR_Matrix<N>& mat) : m(mat) {}
+    ~Diagonal_Guard() {
+      for (typename OR_Matrix<N>::row_iterator i = m.row_begin(),
+             i_end = m.row_end(); i != i_end; ++i) {
+        assign_r((*i)[i.index()], PLUS_INFINITY, ROUND_NOT_NEEDED);
+      }
+    }
+  } diagonal_guard(x.matrix);
+
   // Fill the main diagonal with zeros.
   for (row_iterator i = m_begin; i != m_end; ++i) {
     PPL_ASSERT(is_plus_infinity((*i)[i.index()]));
@@ -2821,6 +2835,20 @@ Octagonal_Shape<T>
 
   const row_iterator m_begin = x.matrix.row_begin();
   const row_iterator m_end = x.matrix.row_end();
+
+  // If the closure is abandoned by an exception (allocation failure,
+  // timeout), the main diagonal must get back its plus infinities:
+  // the partially closed matrix still encodes the same octagon.
+  struct Diagonal_Guard {
+    OR_Matrix<N>& m;
+    explicit Diagonal_Guard(OR_Matrix<N>& mat) : m(mat) {}
+    ~Diagonal_Guard() {
+      for (typename OR_Matrix<N>::row_iterator i = m.row_begin(),
+             i_end = m.row_end(); i != i_end; ++i) {
+        assign_r((*i)[i.index()], PLUS_INFINITY, ROUND_NOT_NEEDED);
+      }
+    }
+  } diagonal_guard(x.matrix);
 
   // Fill the main diagonal with zeros.
   for (row_iterator i = m_begin; i != m_end; ++i) {
